@@ -86,6 +86,15 @@ def gen_cases(tier, seed):
                     exp += v.to_bytes(width, "big")
             yield {"id": "%s/list/%d" % (mn, k), "mn": mn, "operand": ",".join(items), "expect": None if bad else exp.hex(),
                    "form": "%s.%s.%s" % (mn.lower(), "list" if ln > 1 else "single", "over" if bad else ("neg" if any(x.startswith("-") for x in items) else "lit")), "pre": [], "post": []}
+    # the same symbol used by data directives of different widths in ONE program (each statement judged separately)
+    for org in (0x80, 0x10, 0xF0):
+        for order in (("FCB", "FDB", "FCB"), ("FDB", "FCB", "FDB"), ("FDB", "FDB", "FCB", "FCB")):
+            pre = [" ORG $%X\n" % org, "VAR RMB 1\n"]
+            for j, mn in enumerate(order):
+                rest = [" %s VAR\n" % m for m in order[j + 1:]]
+                before = [" %s VAR\n" % m for m in order[:j]]
+                yield {"id": "multi/%X/%s/%d" % (org, "-".join(order), j), "mn": mn, "operand": "VAR", "expect": ("%02X" % org if mn == "FCB" else "%04X" % org).lower(),
+                       "form": "%s.single.symbol-shared" % mn.lower(), "pre": pre + before, "post": rest}
     # FCC
     for k in range(6000 if thorough else 700):
         r = rng(seed, "C05", "fcc", k)
